@@ -43,6 +43,8 @@ package encoding
 //@   ensures[C03] err == nil && rkind(rbase(v)) == 24 ==> q.w.len == old(q.w.len) + 4 + len(string(rbase(v).rval)) && holdsStr(q.w.data, old(q.w.len), string(rbase(v).rval))
 //@   ensures[C03] err == nil && rkind(rbase(v)) == 23 ==> q.w.len >= old(q.w.len) + 4 && isle32(q.w.data, old(q.w.len), u32(int32(old(rbase(v).rlen))))
 //@   ensures[C03] err == nil && rkind(rbase(v)) == 21 ==> q.w.len >= old(q.w.len) + 4 && isle32(q.w.data, old(q.w.len), u32(int32(old(rbase(v).rlen))))
+// completeness: every fixed-width scalar is encoded on an accepting writer
+//@   ensures[C03] q.w.accepting && 1 <= rkind(rbase(v)) && rkind(rbase(v)) <= 14 ==> err == nil
 //@   loop 1:
 //@     invariant 0 <= i && l == rnfield(old(v)) && rkind(old(v)) == 25
 //@     invariant forall ww io.Writer {ww.len} :: ww.len >= old(ww.len)
@@ -97,6 +99,8 @@ package encoding
 //@   ensures[C03] err == nil && rkind(rbase(v)) == 23 ==> q.r.pos >= old(q.r.pos) + 4 && 0 <= rbase(v).rlen && u32(int32(rbase(v).rlen)) == le32(q.r.data, old(q.r.pos))
 //@   ensures[C03] err == nil && rkind(rbase(v)) == 21 ==> q.r.pos >= old(q.r.pos) + 4
 //@   ensures[C03] err != nil && 1 <= rkind(rbase(v)) && rkind(rbase(v)) <= 14 ==> q.r.short
+// completeness: a fixed-width scalar is decoded whenever its bytes are there (fault-free reader)
+//@   ensures[C03] q.r.faultfree && old(q.r.len) - old(q.r.pos) >= 8 && 1 <= rkind(rbase(v)) && rkind(rbase(v)) <= 14 ==> err == nil
 //@   loop 1:
 //@     invariant 0 <= i && l == rnfield(old(v)) && rkind(old(v)) == 25 && 0 <= q.r.pos && q.r.pos <= q.r.len
 //@     invariant forall rr io.Reader {rr.pos} :: rr.pos >= old(rr.pos) && (old(rr.pos) <= rr.len ==> rr.pos <= rr.len)
